@@ -549,6 +549,20 @@ def spec_sweep_one(row):
             if x in linked or out.post["sweep_prev"] == x:
                 probs.append("[once] the released block is still linked in the all-list%s: a later sweep reads it and the "
                              "arena drop releases it again" % (" (and is the sweep's predecessor)" if out.post["sweep_prev"] == x else ""))
+        # a condemned block whose destructor unwinds: the block is either released on the unwinding path, or still in
+        # the list (flagged not-live, so that the arena drop releases it without destructing it again). Unlinked and
+        # not released, nothing will ever reach it: it stays allocated and counted for good (F19).
+        if out.kind == "unwind" and dropped and want_free and not freed:
+            linked, cur, guard = set(), out.post["all"], 0
+            while cur is not None and cur not in linked and guard < 16:
+                linked.add(cur)
+                o = out.post["objs"].get(cur)
+                cur = o.get("next") if o else None
+                guard += 1
+            if not (x in linked and post["live"] == 0):
+                probs.append("[leak] the destructor of a condemned value unwound and its block was neither released nor "
+                             "left in the all-list: it stays allocated and counted for the rest of the arena's life and "
+                             "after it")
         # (the unwind rows above carry the C11 obligations semantically: on the unwinding exit the object is already
         # unlinked / flagged not-live; statement order itself is not checked)
     return probs
@@ -615,6 +629,10 @@ def spec_drop_all(row):
             if freed < n - panicked:
                 probs.append("[once] only %d of %d blocks released after %d destructor panic(s): the walk did not resume" % (
                     freed, n, panicked))
+            elif freed < n:
+                probs.append("[leak] %d of %d blocks released after %d destructor panic(s): the block of a value whose "
+                             "destructor unwinds is never returned to the allocator (the walk resumes past it)" % (
+                                 freed, n, panicked))
     return probs
 
 
